@@ -1,5 +1,6 @@
 """Generator of `matching!` inputs: for each case the macro invocation text, the hand-expanded native
 `match` arms and the S-expression of the same input for the Lean model."""
+import re
 from .scn import Rng
 
 TYPES = {
@@ -157,7 +158,20 @@ def gen_case(rng, ident, force=None):
         elif shape == 2: c.guard = (f"{a[0]} && {b[0]}", f"A({a[1]},{b[1]})")
         else:
             d = atom(); c.guard = (f"{a[0]} || {b[0]} && {d[0]}", f"O({a[1]},A({b[1]},{d[1]}))")
+    # user bindings named like the identifiers the macro uses itself (the eq!/ne! operand locals l0, l1, .. and the pattern
+    # bindings m0, m1, .. of the compared positions): one case in three among those with an eq!/ne! operand
+    if any(e[0] != 'P' for alt in alts for e in alt) and rng.chance(1, 3):
+        rename(c, rng.choice([{'x0': 'l0', 'x1': 'l1'}, {'x0': 'l1', 'x1': 'l0'}, {'x0': 'm1', 'x1': 'm0'}]))
     return c
+
+def rename(c, ren):
+    def sub(t):
+        for a, b in ren.items():
+            t = re.sub(r'\b' + a + r'\b', b, t)
+        return t
+    c.alts = [[(e[0], Pat(sub(e[1].rust), e[1].sexpr, e[1].binds)) if e[0] == 'P' else e for e in alt] for alt in c.alts]
+    if c.guard:
+        c.guard = (sub(c.guard[0]), c.guard[1])
 
 def macro_text(c):
     def el(e):
@@ -180,8 +194,8 @@ def native_arms(c):
             if e[0] == 'P':
                 pats.append(e[1].rust)
             else:
-                pats.append(f"m{i}")
-                conds.append(f"(m{i} {'==' if e[0] == 'EQ' else '!='} &{e[1]})")
+                pats.append(f"cmp_arg_{i}")      # (a name no generated user binding uses)
+                conds.append(f"(cmp_arg_{i} {'==' if e[0] == 'EQ' else '!='} &{e[1]})")
         g = ([f"({c.guard[0]})"] if c.guard else []) + conds
         pat = pats[0] if len(pats) == 1 else '(' + ', '.join(pats) + ')'
         arms.append(f"{pat}{' if ' + ' && '.join(g) if g else ''} => true,")
@@ -285,6 +299,11 @@ def gen_cases(seed, n):
                  [[('P', Pat('&(ka::A..=ka::B)', 'r0-1')), ('P', W_)], [('P', Pat('&(kb::A..=kb::B)', 'r2-3')), ('P', W_)]],
                  [[('P', W_), ('P', Pat('&kb::B', 'l3'))], [('P', W_), ('P', Pat('&ka::B', 'l1'))]],
                  [[('P', Pat('&ka::A | &kb::A', 'o[l0,l2]')), ('P', Pat('&(ka::B..=kb::A)', 'r1-2'))]]):
+        c = Case(); c.ident = f"k{k}"; c.types = 'nn'; c.method = 'm_nn'; c.guard = None; c.alts = alts
+        cases.append(c); k += 1
+    # bindings named like the macro's own identifiers next to an eq!/ne! operand
+    for alts in ([[('P', Pat('l0', 'b0', [0])), ('EQ', 3)]], [[('P', Pat('m1', 'b0', [0])), ('EQ', 3)]], [[('NE', 2), ('P', Pat('l0', 'b1', [1]))]],
+                 [[('P', Pat('l0 @ 1..=3', 'a0(r1-3)', [0])), ('NE', 1)]], [[('EQ', 1), ('P', Pat('m0', 'b1', [1]))], [('P', Pat('l0', 'b0', [0])), ('EQ', 2)]]):
         c = Case(); c.ident = f"k{k}"; c.types = 'nn'; c.method = 'm_nn'; c.guard = None; c.alts = alts
         cases.append(c); k += 1
     for k2 in range(n):
